@@ -49,3 +49,21 @@ def register(reg):
                    assumes=["str_to_int(u) == v", "self.fixed_digits == 0 or len(u) == self.fixed_digits", "in_range(self, v)"],
                    goals=["not ((self.fixed_digits != 0 and len(u) != self.fixed_digits) or not in_range(self, str_to_int(u)))",
                           "str_to_int(u) == v"])
+
+    # ---- copying a rule (Submount / Subdomain / EndpointPrefix factories re-create rules through empty()): the copy is
+    # configured exactly like the original -- every constructor option is carried over
+    RuleCfg = reg.model("RuleCfg", cls="werkzeug/routing/rules.py:Rule",
+                        fields={"defaults": "Optional[Dict[str, str]]", "subdomain": "Optional[str]", "methods": "Optional[Set[str]]",
+                                "build_only": "bool", "endpoint": "opaque:any", "strict_slashes": "Optional[bool]",
+                                "redirect_to": "Optional[str]", "alias": "bool", "host": "Optional[str]"})
+    reg.contract(
+        "werkzeug/routing/rules.py:Rule.get_empty_kwargs", prop=P, self_model=RuleCfg, modifies=[],
+        ensures=[
+            "result['subdomain'] == self.subdomain", "result['host'] == self.host", "result['methods'] == self.methods",
+            "result['build_only'] == self.build_only", "result['endpoint'] == self.endpoint",
+            "result['strict_slashes'] == self.strict_slashes", "result['redirect_to'] == self.redirect_to",
+            "result['alias'] == self.alias",
+            "'defaults' in result and len(result) == 9",
+        ],
+        raises={},
+    )
